@@ -361,6 +361,8 @@ pub fn node_out(p: &Prog, idx: usize, op: &Op, ins: &[EdgeInfo]) -> Result<Vec<E
             vec![mk(&tys[0], ins[0].ord, weaken(ins[0].card))]
         }
         Op::DeferSignal => vec![mk(&tys[0], ins[0].ord, Many)],
+        Op::LatticeFoldBatch => vec![mk(&tys[0], Seq, Opt)],
+        Op::LatticeJoinFused { .. } => vec![mk(&tys[0], Bag, Many)],
         Op::Fold { f, replay, .. } => {
             if !f.commutative() {
                 seq(0)?;
@@ -399,10 +401,11 @@ pub fn node_out(p: &Prog, idx: usize, op: &Op, ins: &[EdgeInfo]) -> Result<Vec<E
         Op::DeferTick { .. } => vec![mk(&tys[0], ins[0].ord, weaken(ins[0].card))],
         Op::LatticeFold { .. } => vec![mk(&tys[0], Seq, One)],
         Op::LatticeReduce { .. } => vec![mk(&tys[0], Seq, Opt)],
-        Op::State { .. } | Op::StateBy { .. } => vec![
-            mk(&tys[0], ins[0].ord, weaken(ins[0].card)),
-            mk(&tys[1], Seq, One),
-        ],
+        Op::State { .. } | Op::StateBy { .. } => {
+            // which items "actually changed the lattice state" depends on the arrival order
+            seq(0)?;
+            vec![mk(&tys[0], ins[0].ord, weaken(ins[0].card)), mk(&tys[1], Seq, One)]
+        }
         Op::DemuxEnum => tys.iter().map(|t| mk(t, ins[0].ord, weaken(ins[0].card))).collect(),
         Op::Initialize => vec![mk(&tys[0], Seq, Opt)],
         Op::ForEach { .. } | Op::Null => vec![],
